@@ -1,3 +1,4 @@
+import os as _os10
 # C10: Rabin key operations (sign/verify, key validation) on hand-assembled toy Blum keys. See harness/notes/C10.md.
 C10_TU = ['TMCG_SecretKey.cc', 'TMCG_PublicKey.cc', 'mpz_sqrtm.cc', 'parse_helper.cc']
 C10_REPLACE = dict(COIN)
@@ -5,6 +6,7 @@ C10_REPLACE.update({
   'tmcg_h': 'vfstub10_h', 'tmcg_g': 'vfstub10_g',
   'operator<<(std::ostream&, __mpz_struct const*)': 'vfstub10_mpz_out(std::ostream&, __mpz_struct const*)',
   '__gmpz_set_str': 'vfstub10_set_str', 'tmcg_mpz_srandom_mod': 'vfstub10_random_mod',
+  '__gmpz_mul': 'vfstub10_mul', '__gmpz_mod': 'vfstub10_mod',
   'memcpy': 'vfstub10_memcpy', 'memset': 'vfstub10_memset', 'memcmp': 'vfstub10_memcmp'})
 C10_SQRT_CONTRACT = {'tmcg_mpz_qrmn_p': 'vfstub10_qrmn_p', 'tmcg_mpz_sqrtmn_fast_all': 'vfstub10_sqrt_all'}
 C10_ASSUME = [
@@ -12,21 +14,38 @@ C10_ASSUME = [
   'numbers inside texts travel as out-of-band tokens "@k" (operator<< for mpz writes a table index, mpz_set_str reads the table; concrete digit strings are parsed as GMP does); oracle keys substitute tokens by their values; the base-62 codec is checked in C11',
   'gcry_randomize and tmcg_mpz_srandom_mod return arbitrary values in their documented ranges (logged symbolic sources)',
   'keys are assembled by hand around concrete primes p, q = 3 (mod 4) and completed by the real TMCG_SecretKey::precompute(); the sieve-based generation is not run']
+C10_UNWIND = {'_ZL9sqm_applyjP12__mpz_structPKS_S2_.0': 26, 'h_sign_verify.4': 26, '_ZNKSs7compareEPKcm.0': 54, '_ZNSsC2EPKc.0': 54, '_ZNSs6appendEPKcm.4': 54, '_ZNSs6appendEPKcm.3': 54, 'bitlen.0': 54, '_ZNKSs4findEcm.0': 54, '_ZNSt11char_traitsIcE6lengthEPKc.0': 54, '_ZL5mkkeyR14TMCG_SecretKeymmm.0': 54}
+C10_UNWIND.update({'_ZL6oraclejPhmPKhmmb.%d' % _i: 70 for _i in range(16)})
+C10_UNWIND.update({'vfstub10_memcpy.0': 70, 'vfstub10_memcpy.1': 70, '_ZNSt5__ios3putEPKcm.3': 64, '_ZNSt5__ios3putEPKcm.4': 64, '_ZNKSs4findEPKcmm.0': 64, '_ZNKSs4findEPKcmm.1': 64})
 C10_KEY = {'H_P': 4099, 'H_Q': 4111, 'H_Y': 3, 'VF_BITS': 52}
 def C10(name, entry, desc, symbolic, bounds, contract=False, **kw):
     rep = dict(C10_REPLACE)
     ass = list(C10_ASSUME)
     if contract:
         rep.update(C10_SQRT_CONTRACT)
-        ass.append('square-root machinery replaced by its contract (qrmn_p true => sqrtmn_fast_all returns r1,r3 in [0,m), r2=m-r1, r4=m-r3, r_i^2 = a mod m); the contract is checked on the real functions for the same key by C10_sqrt_contract')
-    d = dict(id='C10_' + name, property='C10', src='C10_rabin.cc', entry=entry, tu=C10_TU, unwind=56, replace=rep,
-             defines=dict(C10_KEY, MINISTL_STREAM_CAP=128), config={'TMCG_PRAB_K0': 1, 'TMCG_SAEP_S0': 1},
+        ass.append('square-root machinery replaced by its contract (qrmn_p true => sqrtmn_fast_all returns r1,r3 in [0,m), r2=m-r1, r4=m-r3, r_i^2 = a mod m); this contract is NOT machine-checked at the 25-bit key (h_sqrt_contract on the real functions did not close, see notes/C10.md); C09_sqrtmn* check the non-fast variants on products < 128')
+    d = dict(id='C10_' + name, property='C10', src='C10_rabin.cc', entry=entry, tu=C10_TU, unwind=12, replace=rep, unwindset=dict(C10_UNWIND),
+             defines=dict(C10_KEY, MINISTL_STREAM_CAP=64, **({'H_MAXDRAWS10': int(_os10.environ['C10_DRAWS'])} if _os10.environ.get('C10_DRAWS') else {})), config={'TMCG_PRAB_K0': 1, 'TMCG_SAEP_S0': 1},
              desc=desc, symbolic=symbolic, bounds=bounds, assumptions=ass, backend='kissat', memgb=6, models=GCRY_MODELS)
     d.update(kw); H(**d)
-C10('sqrt_contract', 'h_sqrt_contract', 'tmcg_mpz_qrmn_p(a) => tmcg_mpz_sqrtmn_fast_all returns four roots of a (two pairs r, m-r) for the toy key',
-    'a in the slice', 'key p=4099, q=4111 (m = 16850989, 25 bits); a < 2^24 (every value sign() can produce)', in_tiers=('thorough',),
-    slices=[{'H_ALO': k << 20, 'H_AHI': (k + 1) << 20} for k in range(16)], timeout=3000)
 C10('sign_verify', 'h_sign_verify', 'TMCG_SecretKey::sign(data) -> TMCG_PublicKey::verify(data, sig) accepted', 'hash oracle outputs, pad bytes, residuosity answers, returned roots (any values satisfying the contract), root choice',
-    'key p=4099, q=4111; TMCG_PRAB_K0=1, 1-byte digest; at most 2 pad draws; data fixed ("msg")', contract=True)
-C10('sign_verify_full', 'h_sign_verify', 'sign -> verify accepted, real square-root code', 'hash oracle outputs, pad bytes, root choice',
-    'key p=4099, q=4111; TMCG_PRAB_K0=1, 1-byte digest; at most 2 pad draws', in_tiers=('thorough',), timeout=3000)
+    'key p=4099, q=4111; TMCG_PRAB_K0=1, 1-byte digest; at most 2 pad draws; data fixed ("msg"); the root choice is enumerated by slices', contract=True,
+    slices=[{'H_ROOT': k} for k in range(4)], timeout=1800)
+C10('sig_tamper', 'h_sig_tamper', 'a valid signature with its value / the data changed: exact acceptance condition',
+    'the valid signature s0 (any verifying value in [0,m)), the replacement value in [-2, m+2) resp. one replaced data character (all 255 other values), all oracle outputs',
+    'key p=4099, q=4111; one kind of edit per query: value, data character (position 1 quick / 0..2 thorough); the key-id edits (H_TK=2) are in the source but NOT registered (see notes/C10.md)',
+    slices=[{'H_TK': 0}, {'H_TK': 1, 'H_POS': 1}], timeout=1800,
+    tiers={'thorough': {'slices': [{'H_TK': 0}] + [{'H_TK': 1, 'H_POS': k} for k in range(3)]}})
+if _os10.environ.get('C10_DEBUG'):
+    C10('dbg_a', 'h_dbg_a', 'debug', '-', '-', contract=True); HARNESSES[-1]['defines']['H_DEBUG10'] = 1
+    C10('dbg_c', 'h_dbg_c', 'debug', '-', '-', contract=True); HARNESSES[-1]['defines']['H_DEBUG10'] = 1
+    C10('dbg_m', 'h_dbg_m', 'debug', '-', '-', contract=True); HARNESSES[-1]['defines']['H_DEBUG10'] = 1
+    C10('dbg_b', 'h_dbg_b', 'debug', '-', '-', contract=True); HARNESSES[-1]['defines']['H_DEBUG10'] = 1
+# key validation: proofs with fewer rounds than configured (one entry per stage: the configuration differs)
+for _st, _cfg in ((1, (2, 1, 1)), (2, (1, 2, 1)), (3, (1, 1, 2))):
+    C10('check_rounds_s%d' % _st, 'h_check_rounds', 'TMCG_PublicKey::check() refuses a key whose NIZK proof has one round less than TMCG_KEY_NIZK_STAGE%d' % _st,
+        'self-signature value, every proof value (each in [0,m)), all oracle outputs', 'key p=4099, q=4111; TMCG_KEY_NIZK_STAGE1..3 = %s, proof rounds one less in stage %d; one challenge draw per round' % (_cfg, _st),
+        src='C10_check.cc', in_tiers=('thorough',), timeout=1500, config={'TMCG_PRAB_K0': 1, 'TMCG_SAEP_S0': 1, 'TMCG_KEYID_SIZE': 2, 'TMCG_KEY_NIZK_STAGE1': _cfg[0], 'TMCG_KEY_NIZK_STAGE2': _cfg[1], 'TMCG_KEY_NIZK_STAGE3': _cfg[2]},
+        defines=dict(C10_KEY, MINISTL_STREAM_CAP=64, MINISTL_STRING_MINCAP=63, H_SHORT=_st),
+        unwindset=dict(C10_UNWIND, **{'__gmpz_probab_prime_p.0': 2100, '__gmpz_jacobi.0': 160, '__gmpz_ui_pow_ui.0': 60, '__gmpz_ui_pow_ui.2': 26, 'powmw.0': 54, '_ZN14TMCG_PublicKey5checkEv.7': 1, '_ZN14TMCG_PublicKey5checkEv.19': 1, '_ZN14TMCG_PublicKey5checkEv.32': 1}, **{'h_check_rounds.%d' % _i: 64 for _i in range(100)}))
+    HARNESSES[-1]['assumptions'] = HARNESSES[-1]['assumptions'] + ['NIZK challenges returned by the oracle are units modulo m (exceptional set: a challenge divisible by p or q), so every rejection loop of check() runs once']
